@@ -44,6 +44,20 @@ const c20Marker2 = "Kj4Xt"
 // c20Second derives the second password from the first: same variant part, other marker.
 func c20Second(pw string) string { return strings.Replace(pw, c20Marker, c20Marker2, 1) }
 
+// c20Short: passwords shorter than the marker. They consist of bytes that occur in no configured string, no
+// server line, no log format and no error text of the sessions (asserted by the scenario precondition for the
+// configured strings; a stray occurrence elsewhere would show as a violation on the unchanged tree).
+var c20Short = []string{"~", "|", "~|", "^~|", "~^|~"}
+
+func c20IsShort(pw string) bool {
+	for _, s := range c20Short {
+		if s == pw {
+			return true
+		}
+	}
+	return false
+}
+
 const c20DialErr = "connection refused"
 
 var c20Variants = []string{"p", "PASS", " lead", "a b", ":c", "%s%d%!", "\\", "\x01x", strings.Repeat("z", 600)}
@@ -104,7 +118,11 @@ var c20Outcomes = []string{"normal", "eof0", "writeerr1", "writeerr2", "writeerr
 	// reconnect: a full session (welcome), the server hangs up, the same client connects again and registers a
 	// second time | stall-pass: the server accepts the connection and does not read for three minutes (longer
 	// than Config.Timeout), so the write of the first registration line blocks; then it reads
-	"reconnect", "stall-pass"}
+	"reconnect", "stall-pass",
+	// the application sends the configured password once more itself: pass-again-now = Conn.Pass(password) as soon
+	// as Connect has returned, while the registration lines may still be queued | pass-in-register = from a
+	// REGISTER handler of its own | pass-twice = twice in a row after the welcome
+	"pass-again-now", "pass-in-register", "pass-twice"}
 
 const (
 	c20LS  = ":srv CAP * LS :multi-prefix sasl away-notify"
@@ -207,7 +225,7 @@ func c20Judge(pw string, logs []vx.LogRec) ([]explore.Finding, c20Stats) {
 		}
 		if i := strings.Index(full, "PASS "); i >= 0 {
 			st.PassShown++
-			if strings.Contains(full[i+5:], c20Marker) || strings.Contains(full[i+5:], c20Marker2) {
+			if strings.Contains(full[i+5:], c20Marker) || strings.Contains(full[i+5:], c20Marker2) || (c20IsShort(pw) && strings.Contains(full[i+5:], pw)) {
 				add("pass-line-not-masked", fmt.Sprintf("%s record shows the PASS command unmasked: %s", rec.Level, show(full)))
 			} else {
 				st.Masked++
@@ -223,7 +241,7 @@ func c20Scenario(pwIdx int, pw string, m c20Mode, outcome string) *explore.Scena
 			panic(fmt.Sprintf("C20 harness precondition violated: password/marker %s occurs in configured string %s", Q(pw), Q(s)))
 		}
 	}
-	if !strings.Contains(pw, c20Marker) || pw == "" {
+	if (!strings.Contains(pw, c20Marker) && !c20IsShort(pw)) || pw == "" {
 		panic("C20 harness precondition violated: password without the marker")
 	}
 	sc := &explore.Scenario{
@@ -260,6 +278,9 @@ func c20Scenario(pwIdx int, pw string, m c20Mode, outcome string) *explore.Scena
 		if m.Track {
 			c.EnableStateTracking()
 		}
+		if outcome == "pass-in-register" {
+			c.HandleFunc(client.REGISTER, func(conn *client.Conn, _ *client.Line) { conn.Pass(pw) })
+		}
 		var vc *vx.Conn
 		env.ConnSetup = func(x *vx.Conn) {
 			vc = x
@@ -294,6 +315,8 @@ func c20Scenario(pwIdx int, pw string, m c20Mode, outcome string) *explore.Scena
 			c.Config().Pass = c20Second(pw)
 		case "wipe":
 			c.Config().Pass = ""
+		case "pass-again-now":
+			c.Pass(pw)
 		}
 		if outcome == "stall-pass" {
 			vx.Sleep(3 * time.Minute)
@@ -321,7 +344,7 @@ func c20Scenario(pwIdx int, pw string, m c20Mode, outcome string) *explore.Scena
 			settle()
 		}
 		switch outcome {
-		case "user-pass", "reconnect-to", "rotate", "wipe":
+		case "user-pass", "reconnect-to", "rotate", "wipe", "pass-again-now", "pass-in-register", "pass-twice":
 			if m.Neg {
 				vc.SendLines(c20LS)
 				settle()
@@ -332,6 +355,10 @@ func c20Scenario(pwIdx int, pw string, m c20Mode, outcome string) *explore.Scena
 			settle()
 			if outcome == "user-pass" {
 				c.Pass(c20Second(pw))
+			}
+			if outcome == "pass-twice" {
+				c.Pass(pw)
+				c.Pass(pw)
 			}
 			if outcome == "reconnect-to" {
 				err := c.ConnectTo("other.example:6667", c20Second(pw))
@@ -421,6 +448,7 @@ func c20Passwords(tier string) []string {
 	for _, n := range []int{1, 2, 8, 64, 200, 440, 443, 444, 445, 500, 505, 2000} {
 		pws = append(pws, c20Marker+strings.Repeat("z", n))
 	}
+	pws = append(pws, c20Short...)
 	if tier == "thorough" {
 		// the byte before / after the marker, and pairs of the bytes that mean something to IRC, fmt or the mask
 		special := []string{" ", ":", "%", "\\", "*", "P", "\x01", "\t", "\"", "'", "\x7f", "\xff", "é"}
@@ -514,7 +542,7 @@ func c20EnumJob(name string, idx []int, pws []string) Job {
 func init() {
 	Register(&Prop{
 		ID:   "C20",
-		Rule: "passwords = marker \"Zq7Pw\" + variant and \"x\" + marker + variant for variant ∈ {p, PASS, ' lead', 'a b', ':c', '%s%d%!', '\\', '\\x01x', 600×z} (18 designed), plus marker + every printable ASCII byte (95) and a length ladder 1..2000 (12) (thorough: + pairs of IRC/fmt/mask-significant bytes around the marker and fmt/IRC look-alikes); sessions = {plain, negotiation, tracking, both, plain without proxy, both without proxy, plain with flood protection, both with flood protection} × outcome {normal welcome + 11 lines + EOF, EOF at once, write error on write 1..4, dial error, empty cfg.Server, TLS handshake answered in plain text / by EOF, a second password (other marker) sent with Conn.Pass after registration, ConnectTo(other host, second password) while connected followed by Conn.Pass(first), Config.Pass overwritten (second password / empty) as soon as Connect returns, a second connect of the same client after a full first session, a server that does not read for three minutes after accepting}; enumeration jobs run every (password, session) once under the default schedule; exploration jobs run the failing-connection sessions of the 18 designed passwords under every schedule within the deviation budgets; the capturing logger records all four levels; distinct = distinct (password, session, sequence of (level, format) records, number of masked PASS records) resp. distinct canonical observation per explored scenario",
+		Rule: "passwords = marker \"Zq7Pw\" + variant and \"x\" + marker + variant for variant ∈ {p, PASS, ' lead', 'a b', ':c', '%s%d%!', '\\', '\\x01x', 600×z} (18 designed), plus marker + every printable ASCII byte (95) and a length ladder 1..2000 (12), plus five passwords of 1 to 4 bytes, shorter than the marker, made of bytes that occur nowhere else in the sessions (thorough: + pairs of IRC/fmt/mask-significant bytes around the marker and fmt/IRC look-alikes); sessions = {plain, negotiation, tracking, both, plain without proxy, both without proxy, plain with flood protection, both with flood protection} × outcome {normal welcome + 11 lines + EOF, EOF at once, write error on write 1..4, dial error, empty cfg.Server, TLS handshake answered in plain text / by EOF, a second password (other marker) sent with Conn.Pass after registration, ConnectTo(other host, second password) while connected followed by Conn.Pass(first), Config.Pass overwritten (second password / empty) as soon as Connect returns, a second connect of the same client after a full first session, a server that does not read for three minutes after accepting, the configured password sent once more by the application (Conn.Pass as soon as Connect returns / from a REGISTER handler of its own / twice in a row after the welcome)}; enumeration jobs run every (password, session) once under the default schedule; exploration jobs run the failing-connection sessions of the 18 designed passwords under every schedule within the deviation budgets; the capturing logger records all four levels; distinct = distinct (password, session, sequence of (level, format) records, number of masked PASS records) resp. distinct canonical observation per explored scenario",
 		Assumptions: []string{
 			"the server never sends the password (recv logs every received line); asserted by the harness precondition",
 			"connections go through the in-memory network either via the registered proxy type or (modes +direct) via the Dialer shim that replaces net.Dialer in the instrumented copy; the TLS branch is executed with a handshake that fails (plain-text answer, EOF), never with one that succeeds",
